@@ -96,11 +96,9 @@ Lemma codes_registry_wellformed :
   mem_str "invalid_annotation" registered_codes = true /\ 50 <= length registered_codes.
 Proof. vm_compute. repeat split; try reflexivity. repeat constructor. Qed.
 
-(* ---- show_error: the source still has the shape Total/Emit.v was written for ---- *)
-Lemma show_error_shape_pinned :
-  show_error_subscripts = pinned_subscripts /\ show_error_context_bounds = pinned_context_bounds /\
-  BinInt.Z.of_nat show_error_context_lines = CONTEXT_LINES.
-Proof. vm_compute. repeat split; reflexivity. Qed.
+(* ---- show_error: the constants translated from node_visitor.py satisfy what the theorems need ---- *)
+Lemma show_error_params_ok : params_ok show_error_params = true.
+Proof. vm_compute. reflexivity. Qed.
 
 (* ---- enum dispatch chains with a crashing else branch (every such chain of the package) ---- *)
 Definition members_of (e : string) : list string :=
